@@ -58,15 +58,16 @@ type docGen struct {
 	// attribute noise for C05: decorate elements with on*/id/class/style/data-*
 	noise bool
 	// page URL given: relative media/link URLs
-	hideVariants  []string
-	wrapIn        string // C03: place the generated forest inside li / blockquote / table cell
-	layoutNoise   bool   // list items / quotes / pre may carry display:inline-block (C07)
-	markupText    bool   // some texts show markup as text (C05: nothing of it may come alive)
-	inlineJunk    bool   // inline formatting elements may hold hidden spans / scripts (C04)
-	blanksBetween bool   // neighbouring inline elements are kept apart by a white-space text node between them (C03, C02, C09)
-	tightInline   bool   // words may continue across the edge of an inline element (C09)
-	mediaSeps     bool   // separator signs (text without a word) in front of media inside a line (C08)
-	noTitle       bool   // no <title> element (C09: the word-count clause needs pages without title)
+	hideVariants   []string
+	wrapIn         string // C03: place the generated forest inside li / blockquote / table cell
+	layoutNoise    bool   // list items / quotes / pre may carry display:inline-block (C07)
+	listMarkupText bool   // some texts show list / quote markup as text (C07: the words behind it keep their chain)
+	markupText     bool   // some texts show markup as text (C05: nothing of it may come alive)
+	inlineJunk     bool   // inline formatting elements may hold hidden spans / scripts (C04)
+	blanksBetween  bool   // neighbouring inline elements are kept apart by a white-space text node between them (C03, C02, C09)
+	tightInline    bool   // words may continue across the edge of an inline element (C09)
+	mediaSeps      bool   // separator signs (text without a word) in front of media inside a line (C08)
+	noTitle        bool   // no <title> element (C09: the word-count clause needs pages without title)
 }
 
 func newDocGen(seed int64, id int) *docGen {
@@ -332,6 +333,10 @@ func (g *docGen) render0(n *cnode) string {
 	switch n.k {
 	case "T":
 		w := g.words(g.long)
+		if g.listMarkupText && g.rng.Intn(4) == 0 {
+			// text that SHOWS list / quote markup (an HTML tutorial): the words behind it stay where they are
+			w = g.words(g.long/2) + " " + g.pick(`&lt;ul&gt;&lt;li&gt;`, `&lt;blockquote&gt;`, `&lt;ol&gt;&lt;li&gt;`, `&lt;pre&gt;`, `&lt;/li&gt;&lt;/ul&gt;`) + " " + g.words(g.long-g.long/2)
+		}
 		if g.markupText && g.rng.Intn(5) == 0 {
 			// text that SHOWS markup (a code sample, a comment quoting a tag): character references, not elements
 			w += " " + g.pick(`&lt;script&gt;zqh()&lt;/script&gt;`, `&lt;img src=x onerror=zqh()&gt;`,
@@ -564,6 +569,10 @@ func (g *docGen) render0(n *cnode) string {
 			sb.WriteString("<caption>" + g.words(g.short) + "</caption>")
 		}
 		sb.WriteString("<tr" + g.noiseAttrs() + "><th>" + g.words(1) + "</th><th>" + g.words(1) + "</th></tr>")
+		if g.rng.Intn(4) == 0 {
+			// a row without a cell of its own (the cells above span it), or one whose cells are all hidden: still a row
+			sb.WriteString(g.pick("<tr></tr>", "<tr>\n</tr>", `<tr><td hidden>`+g.words(1)+`</td><td style="display:none">`+g.words(1)+`</td></tr>`))
+		}
 		kids := n.kids
 		for i := 0; i < len(kids) || i < 2; i += 2 {
 			sb.WriteString("<tr>")
